@@ -6,6 +6,7 @@ import (
 	"os"
 	"path/filepath"
 	"strings"
+	"time"
 )
 
 // Ref names an item symbolically so that a recorded history can be replayed although
@@ -172,6 +173,10 @@ func (w *World) writeFiles(files []FileSpec) {
 			_ = os.Symlink(f.Target, p)
 		default:
 			_ = os.WriteFile(p, []byte(f.Content), 0o644)
+			// a fixed mtime: the same path re-attached with new content keeps its timestamp
+			// (what cp -p, rsync -t or an edit within the same clock tick do)
+			fixed := time.Date(2026, 3, 4, 5, 6, 7, 0, time.UTC)
+			_ = os.Chtimes(p, fixed, fixed)
 		}
 	}
 }
